@@ -117,7 +117,7 @@ type Knobs struct {
 	MaxISD, MaxCore, MaxNonCore, MaxPeer, MaxRouters int
 	BFD                                              bool
 	BFDMix                                           bool // BFD per link end and per router drawn (C15)
-	ReuseLocal                                      bool
+	ReuseLocal                                       bool
 	RcvBuf, SndBuf                                   int
 	Batch                                            int
 	RandomMaxExp                                     bool // per-AS maximum hop expiry drawn from 0..255
